@@ -4,10 +4,10 @@ namespace VtlModel.Gen.Bracket
 open VtlModel.Session
 
 /-- everything `configured_connection` does before the statement that contains the `yield` -/
-def pre : Prog := seqs [.op .mkdirTemp, .op .mkdirSession, .ev "session_dir", .op .chooseDb, .ev "connect", .op .connect, .ev "configure", .op .configure, .op .registerUdf, .op .setDecimal, .op .bindConn, .ev "connected", .op .setTemp]
+def pre : Prog := seqs [.op .mkdirTemp, .op .bindNone]
 
 /-- the statement that contains the `yield`, and whatever follows it -/
-def main : Prog := (.tryFinally (.body) ((.tryFinally (seqs [.op .close, .ev "closed"]) (seqs [.op .rmtree, .ev "rmtree"]))))
+def main : Prog := (.tryFinally (seqs [.op .mkdirSession, .ev "session_dir", .op .chooseDb, .ev "connect", .op .connect, (.tryExcept (seqs [.ev "configure", .op .configure, .op .registerUdf, .op .setDecimal]) (.op .closeInner)), .op .bindConn, .ev "connected", .op .setTemp, .body]) ((.tryFinally ((.ifConn (seqs [.op .close, .ev "closed"]))) (seqs [.op .rmtree, .ev "rmtree"]))))
 
 def prog : Prog := .seq pre main
 
